@@ -157,6 +157,87 @@ fn corpus() -> Vec<(String, Vec<String>)> {
     files
 }
 
+/// "Hence a file's verdict depends only on its code lines", as the user sees it: pairs of files
+/// that differ by inserted blank / comment-only lines (at points the tool places outside block
+/// comments) are checked by the binary under a configuration whose last matching rule leaves the
+/// skip settings at their defaults (an earlier, superseded rule sets them otherwise).  Both files
+/// of a pair must get the same count and the same status.
+fn e2e_batch(sink: &mut Sink, r: &mut Rng, fams: &[Family], bin: &str, scratch: &str) {
+    if !sink.want() {
+        sink.skip();
+        return;
+    }
+    let dir = std::path::PathBuf::from(scratch).join(format!("e{}", sink.n));
+    let _ = std::fs::remove_dir_all(&dir);
+    std::fs::create_dir_all(dir.join("src/core")).unwrap();
+    let reg = sloc_guard::language::LanguageRegistry::default();
+    let mut exts: Vec<String> = vec![];
+    let mut pairs: Vec<(String, String, String)> = vec![];
+    let mut tries = 0;
+    while pairs.len() < 12 && tries < 300 {
+        tries += 1;
+        let f = &fams[r.below(fams.len())];
+        let Some(lang) = reg.all().iter().find(|l| l.name == f.name && !l.extensions.is_empty()) else { continue };
+        if f.line_prefixes.is_empty() {
+            continue;
+        }
+        let pieces = r.range(2, 7);
+        let p = program(r, f, pieces, &[], false);
+        let lines: Vec<String> = p.lines.iter().map(|l| l.text.clone()).collect();
+        let Ok(before) = classes(&f.syntax, &lines) else { continue };
+        if before == "ignored-file" || before == "empty" || !before.contains('c') {
+            continue;
+        }
+        // two insertions at free points
+        let mut more = lines.clone();
+        let mut what = vec![];
+        for _ in 0..2 {
+            let k = r.below(more.len() + 1);
+            let Ok(b0) = classes(&f.syntax, &more) else { break };
+            let free = classes(&f.syntax, &with_insert(&more, k, "probe_code_line_x")).is_ok_and(|pr| violates(&b0, &pr, k, 'c').is_none());
+            if !free {
+                continue;
+            }
+            let ins = if r.chance(1, 3) { (*r.pick(&["", " ", "\t"])).to_string() } else { format!("{}{}", r.pick(&f.line_prefixes), r.pick(BODIES)) };
+            what.push(format!("{ins:?} before line {}", k + 1));
+            more = with_insert(&more, k, &ins);
+        }
+        if what.is_empty() {
+            continue;
+        }
+        let ext = lang.extensions[0].trim_start_matches('.').to_string();
+        if !exts.contains(&ext) {
+            exts.push(ext.clone());
+        }
+        let n = pairs.len();
+        let (a, b) = (format!("src/core/base{n}.{ext}"), format!("src/core/more{n}.{ext}"));
+        std::fs::write(dir.join(&a), join(&lines)).unwrap();
+        std::fs::write(dir.join(&b), join(&more)).unwrap();
+        pairs.push((a, b, what.join(", ")));
+    }
+    let list = exts.iter().map(|e| format!("\"{e}\"")).collect::<Vec<_>>().join(", ");
+    std::fs::write(dir.join(".sloc-guard.toml"), format!("version = \"2\"\n[scanner]\ngitignore = false\n[content]\nmax_lines = 4\nextensions = [{list}]\n[[content.rules]]\npattern = \"src/**\"\nmax_lines = 100000\nskip_comments = false\nskip_blank = false\n[[content.rules]]\npattern = \"src/core/**\"\nmax_lines = 5\n")).unwrap();
+    let o = std::process::Command::new(bin).args(["check", "--no-sloc-cache", "--format", "json", "."]).current_dir(&dir).env("NO_COLOR", "1").output().expect("run sloc-guard");
+    let v: serde_json::Value = serde_json::from_slice(&o.stdout).unwrap_or(serde_json::Value::Null);
+    let get = |name: &str| -> Option<(String, u64)> {
+        let x = v.get("results")?.as_array()?.iter().find(|x| x.get("path").and_then(|p| p.as_str()).is_some_and(|p| p.trim_start_matches("./") == name))?;
+        Some((x.get("status")?.as_str()?.to_string(), x.get("sloc")?.as_u64()?))
+    };
+    let mut pred: Option<String> = None;
+    for (a, b, what) in &pairs {
+        match (get(a), get(b)) {
+            (Some(x), Some(y)) => {
+                if x != y && pred.is_none() {
+                    pred = Some(format!("{a} is {} with count {}, {b} (the same file with {what} inserted) is {} with count {}", x.0, x.1, y.0, y.1));
+                }
+            }
+            (x, y) => pred = pred.or(Some(format!("{a} / {b}: not both reported ({x:?}, {y:?}); exit {:?}: {}", o.status.code(), String::from_utf8_lossy(&o.stderr).lines().next().unwrap_or("")))),
+        }
+    }
+    let _ = std::fs::remove_dir_all(&dir);
+    sink.push(Case { request: "noop".into(), implementation: "-".into(), pred: pred.map_or_else(|| "ok".to_string(), |p| format!("FAIL {p}")), tag: format!("e2e/{}-pairs", pairs.len().min(12)) });
+}
+
 pub fn run(tier: Tier, seed: u64, out: &str) {
     let mut sink = Sink::create(out);
     let mut r = Rng::new(seed);
@@ -179,6 +260,13 @@ pub fn run(tier: Tier, seed: u64, out: &str) {
             }
             let (_, lines) = &files[r.below(files.len())];
             one(&mut sink, &rust, lines, &mut r, "repo-src");
+        }
+    }
+    if let Ok(bin) = std::env::var("SGVERIF_BIN") {
+        let scratch = std::env::var("SGVERIF_SCRATCH").unwrap_or_else(|_| "/verif/.build/scratch/c04".to_string());
+        for _ in 0..tier.scale(4, 60) {
+            let mut rr = r.fork();
+            e2e_batch(&mut sink, &mut rr, &fams, &bin, &scratch);
         }
     }
     sink.extra.insert("corpus_files".into(), serde_json::json!(files.len()));
